@@ -102,7 +102,8 @@ package route
 
 // ---- C18 (status machine): initialized -> running only through MarkAsRunning's swap; IsRunning answers true only
 // after it has read 'running'; the shutdown hooks are each started once (its own index) after being added to the
-// wait group, and executeOnShutdownHooks returns only after waiting for the group.
+// wait group - always on a goroutine of their own, never called on the fan-out goroutine itself (a slow hook would
+// hold back the start of the others) - and executeOnShutdownHooks returns only after waiting for the group.
 //@ func Engine.MarkAsRunning(engine) err
 //@   props C18
 //@   abstract
@@ -132,6 +133,7 @@ package route
 //@   ghostset-at-entry hkWaited = false
 //@   ghostset after Add: hkAdded = (arg1 == 1)
 //@   assert before go: hkAdded && !hkWaited
+//@   assert before CtxCallback: false
 //@   ghostset after go: hkAdded = false
 //@   ghostset after Wait: hkWaited = true
 //@   top-ensures hkWaited
